@@ -11,18 +11,19 @@ import (
 )
 
 type CaseResult struct {
-	Name       string
-	Stats      *CaseStats
-	Violations []Violation
-	InitNotes  []string
-	Solver     SolverStats
-	CacheHits  int
+	Name         string
+	Stats        *CaseStats
+	Violations   []Violation
+	InitNotes    []string
+	Solver       SolverStats
+	CacheHits    int
 	CrossChecked int
 }
 
 func (in *Interp) runCase(name string, fn *ssa.Function, args []int, deadline time.Time) *CaseResult {
 	t0 := time.Now()
 	in.caseName = name
+	in.deadline = deadline
 	in.cs = newCaseStats()
 	in.violations = nil
 	in.violSeen = map[string]int{}
@@ -62,6 +63,10 @@ func (in *Interp) runCase(name string, fn *ssa.Function, args []int, deadline ti
 	}
 	if in.unknownFeas > 0 {
 		in.cs.Inconclusive = append(in.cs.Inconclusive, fmt.Sprintf("%d feasibility queries answered unknown (branches kept)", in.unknownFeas))
+	}
+	if intDiff {
+		fmt.Fprintf(os.Stderr, "INT-DIFF case %s: %d queries agreed\n", name, in.intDiffOK)
+		in.intDiffOK = 0
 	}
 	notes := in.initNotes
 	return &CaseResult{Name: name, Stats: in.cs, Violations: in.violations, InitNotes: notes, Solver: diff, CacheHits: in.cacheHits, CrossChecked: in.crossChecked}
@@ -109,8 +114,11 @@ func (in *Interp) runPath(fn *ssa.Function, argv []Value, p pendingPath) {
 				}
 			}
 		}()
+		in.inPath = true
+		defer func() { in.inPath = false }()
 		in.callFunction(fn, argv, nil)
 	}()
+	in.inPath = false
 	in.cs.Steps += in.steps
 	if in.steps > in.cs.MaxPathSteps {
 		in.cs.MaxPathSteps = in.steps
